@@ -65,6 +65,7 @@ class Execution:
         self.main = {}
         self.inputs = {}
         self.returned = set()
+        self.pids = {}          # pipeline id of a returned result -> small index (ObsTrace C08.pid)
         self.cancelled = set()
         self.schedule = []
         self.actions = 0
@@ -96,6 +97,7 @@ class Execution:
                 continue
             self.returned.add(r)
             rt = self.rt
+            pk = 0
             if task.cancelled():
                 kind, v = ('cancelled' if r in self.cancelled else 'raised'), ('cancelled',)
             else:
@@ -104,11 +106,12 @@ class Execution:
                     kind, v = 'raised', rt.err_token(ex)
                 else:
                     res = task.result()
+                    pk = self.pids.setdefault(str(res.pipeline_id), len(self.pids) + 1)
                     if res.error is None:
                         kind, v = 'value', rt.to_term(res.value)
                     else:
                         kind, v = 'error', rt.err_token(res.error)
-            rt.log(e='RunReturn', r=r, kind=kind, v=v)
+            rt.log(e='RunReturn', r=r, kind=kind, v=v, pk=pk)
             if self.snap:
                 s = self.snap(self.chart, self.inputs[r])
                 rt.log(e='Snap', r=r, when='after', **s)
@@ -170,11 +173,33 @@ class Execution:
             e='Quiescent',
             gates=len(gates), timers=len(loop.pending_timers()),
             collab_gates=len([g for g in gates if g.kind == 'collab']),
+            # nodes with a suspended collaborator call (event callback / save): their tasks are not finished
+            collab_nodes=sorted({str(g.info[3]) for g in gates if g.kind == 'collab' and len(g.info) > 3}),
             pending=[r for r, t in sorted(self.main.items()) if not t.done()],
             unstarted=len(self.rt.runs) - len(self.main),
         )
 
+    def _sleep_hook(self, secs):
+        """time.sleep called on the loop thread while the virtual loop runs: the whole loop is blocked for `secs`
+        (ObsTrace C06.blocking).  Virtual: nothing really sleeps."""
+        import threading
+        if threading.get_ident() == self._tid:
+            self.rt.log(e='Block', r=rtm.CUR_RUN.get() or 0, ms=int(round(secs * 1000)), act=self.actions)
+        else:
+            self._real_sleep(secs)
+
     def run(self, policy):
+        import threading
+        import time
+        self._tid = threading.get_ident()
+        self._real_sleep = time.sleep
+        time.sleep = self._sleep_hook
+        try:
+            return self._run(policy)
+        finally:
+            time.sleep = self._real_sleep
+
+    def _run(self, policy):
         with running(self.loop):
             self.start_run(1)
             while True:
